@@ -44,6 +44,20 @@ ASSUMPTIONS = [
 SUGAR_NAMES = ["sugar", "sugar_extended", "csugar", "enigma_csp", "cspuz_core"]
 
 
+def generate_long(rng, tier):
+    """Many independent answer keys (40-150), some of them forced: against a backend that changes
+    ONE free key per call the refute loop needs as many iterations as there are free keys."""
+    n = rng.choice([40, 64, 65, 100, 129, 150])
+    decls = [{"t": "b"} if rng.random() < 0.8 else {"t": "i", "lo": 0, "hi": rng.randint(1, 3)} for _ in range(n)]
+    forced = {}
+    p_forced = rng.choice([0.2, 0.2, 0.6, 0.9])  # with many forced keys, windows / batches of keys can be all-determined
+    for i, d in enumerate(decls):
+        if rng.random() < p_forced:
+            forced[str(i)] = (rng.random() < 0.5) if d["t"] == "b" else rng.randint(d["lo"], d["hi"])
+    keys = [i for i in range(n) if rng.random() < 0.9]
+    return {"prop": ID, "route": "A", "long": True, "decls": decls, "forced": forced, "keys": keys, "start_high": rng.random() < 0.5}
+
+
 def generate_big(rng, tier):
     """Programs too large to enumerate (12-30 variables), solved through real z3.  Known models =
     the hidden witness plus those of its neighbours / random assignments that satisfy every
@@ -70,6 +84,8 @@ def generate_big(rng, tier):
 def generate(rng, tier, index):
     if rng.random() < 0.04:
         return generate_big(rng, tier)
+    if rng.random() < 0.002:
+        return generate_long(rng, tier)
     route = rng.choices(["A", "B", "C", "D"], weights=[5, 3, 3, 1])[0]
     sc = {"prop": ID, "route": route}
     if route in ("A", "D"):
@@ -81,12 +97,14 @@ def generate(rng, tier, index):
         name = rng.choice(peers.POLICIES)
         sc["policy"] = {"name": name, "seed": rng.randrange(1000), "stride": rng.choice([1, 2, 3, 7])}
         sc["fmt"] = {"order": rng.choice(["java", "byid", "shuffled"]), "seed": rng.randrange(1000), "final_newline": rng.random() < 0.7}
+    scale = route in ("C", "D") and rng.random() < 0.02
     decls = refsem.gen_decls(
         rng,
         max_vars=rng.randint(1, 6) if rng.random() < 0.85 else rng.randint(7, 11),
-        cap=1024,
+        cap=1024 if not scale else 32,
         allow_wide=rng.random() < 0.1,
-        pad_to=rng.choice([0, 0, 0, 0, 0, 0, 0, 11, 13]),
+        # scale: hundreds of (mostly singleton-domain) answer keys through the native deduction route
+        pad_to=rng.choice([0, 0, 0, 0, 0, 0, 0, 11, 13]) if not scale else rng.choice([257, 300, 520, 1030]),
     )
     if refsem.domain_product(decls) > 1024:
         decls = [d if d["t"] == "b" or d["hi"] - d["lo"] < 6 else {"t": "i", "lo": d["lo"], "hi": d["lo"] + 5} for d in decls]
@@ -100,7 +118,9 @@ def generate(rng, tier, index):
     big = tier == "thorough" and rng.random() < 0.3
     budget_hi = rng.choice([3, 6, 10, 18]) if not big else rng.choice([10, 18, 30])
     n_rounds = rng.choice([1, 1, 1, 2, 3]) if not big else rng.choice([2, 3, 4, 5])
-    key_mode = rng.choice(["none", "some", "some", "all", "all"])
+    key_mode = rng.choice(["none", "some", "some", "all", "all"]) if not scale else "all"
+    if scale and route == "C" and sc["backend"] == "sugar":
+        sc["backend"] = rng.choice(["sugar_extended", "csugar", "enigma_csp", "cspuz_core"])  # one call per solve, not one per key
     for rnd in range(n_rounds):
         g = refsem.Gen(rng, decls, graph_nodes=(route == "C" and sc["backend"] != "sugar" and rng.random() < 0.3))
         for _ in range(rng.choice([0, 1, 1, 2, 3]) if rnd == 0 else rng.choice([0, 1])):
@@ -134,6 +154,9 @@ def generate(rng, tier, index):
 
 def valid(sc):
     try:
+        if sc.get("long"):
+            n = len(sc["decls"])
+            return n >= 1 and all(0 <= int(k) < n for k in sc["forced"]) and all(0 <= i < n for i in sc["keys"]) and len(set(sc["keys"])) == len(sc["keys"])
         if sc.get("big"):
             decls = sc["decls"]
             return (
@@ -228,6 +251,115 @@ def check_solve(res, prop, tag, decls, constraints, keys, r, sols, n_op, models_
     return M
 
 
+def run_long(sc) -> RunResult:
+    cspuz = core.import_cspuz()
+    from cspuz import expr as E
+
+    res = RunResult()
+    res.log("start", ID, sc.get("seed"), "long")
+    res.hit("scenario:long_refute_loop_one_key_per_call")
+    decls = sc["decls"]
+    forced = {int(k): v for k, v in sc["forced"].items()}
+    keys = sc["keys"]
+    n = len(decls)
+    tag = f"route A one-flip-per-call adversary, {n} variables"
+    state = {"calls": 0, "cap": 8 + 3 * sum((2 if decls[i]["t"] == "b" else decls[i]["hi"] - decls[i]["lo"] + 1) for i in keys)}
+
+    def default_value(i):
+        if i in forced:
+            return forced[i]
+        d = decls[i]
+        if d["t"] == "b":
+            return bool(sc.get("start_high"))
+        return d["hi"] if sc.get("start_high") else d["lo"]
+
+    class ChainBackend:
+        """A correct backend for programs of independent variables (some forced): it keeps its
+        previous model and changes a single free variable per call whenever that suffices."""
+
+        def __init__(self, variables):
+            self.variables = list(variables)
+            self.pos = {v.id: p for p, v in enumerate(self.variables)}
+            self.cs = []
+            self.preds = []
+            self.model = None
+
+        def add_constraint(self, c):
+            new = c if isinstance(c, list) else [c]
+            self.cs.extend(new)
+            self.preds.append(peers.compile_exprs(new, self.pos, E))
+
+        def solve_irrefutably(self, is_answer_key):
+            raise NotImplementedError
+
+        def solve(self):
+            state["calls"] += 1
+            res.steps += 1
+            if state["calls"] > state["cap"]:
+                raise peers.NoReturnWithinBound(f"backend solve() called {state['calls']} times, bound {state['cap']}")
+            preds = self.preds
+
+            def pred(m):
+                # newest constraints first: they are the ones a sticky model most likely violates
+                return all(p(m) for p in reversed(preds))
+
+            base = self.model or [default_value(i) for i in range(n)]
+            cands = [list(base)]
+            for i in range(n):  # one free variable changed
+                if i in forced:
+                    continue
+                d = decls[i]
+                for v in ((not base[i],) if d["t"] == "b" else tuple(x for x in range(d["lo"], d["hi"] + 1) if x != base[i])):
+                    m = list(base)
+                    m[i] = v
+                    cands.append(m)
+            first = [default_value(i) for i in range(n)]
+            flipped = [first[i] if i in forced else ((not first[i]) if decls[i]["t"] == "b" else (decls[i]["hi"] if first[i] != decls[i]["hi"] else decls[i]["lo"])) for i in range(n)]
+            cands.append(flipped)  # every free variable away from the first model: satisfies any clause a free key can satisfy
+            for m in cands:
+                if pred(m):
+                    self.model = m
+                    for p, v in enumerate(self.variables):
+                        v.sol = m[p]
+                    return True
+            return False
+
+    with warnings.catch_warnings():
+        warnings.simplefilter("ignore")
+        try:
+            s = cspuz.Solver()
+            vs = [s.bool_var() if d["t"] == "b" else s.int_var(d["lo"], d["hi"]) for d in decls]
+            for i, v in forced.items():
+                s.ensure(vs[i] if v is True else ~vs[i] if v is False else vs[i] == v)
+            s.add_answer_key([vs[i] for i in keys])
+            try:
+                r = s.solve(backend=ChainBackend)
+            except peers.NoReturnWithinBound as e:
+                res.violate("C02/no-return-within-bound", f"solve(): {e} [{tag}]")
+                return res
+            sols = [v.sol for v in vs]
+            res.log("long", r, state["calls"])
+            res.hit("backend_calls_per_solve:" + ("100+" if state["calls"] >= 100 else "33-99" if state["calls"] > 32 else "<=32"))
+            if r is not True:
+                res.violate("C02/wrong-sat-verdict", f"solve returned {r!r} for a satisfiable program [{tag}]")
+                return res
+            res.nontrivial = True
+            for k in keys:
+                d = decls[k]
+                determined = k in forced or (d["t"] == "i" and d["lo"] == d["hi"])
+                want = forced.get(k, d.get("lo")) if determined else None
+                got = sols[k]
+                if want is None and got is not None:
+                    res.violate("C02/fact-reported-for-undetermined-key", f"key #{k} reported {got!r} but it is free ({state['calls']} backend calls) [{tag}]")
+                    return res
+                if want is not None and (got != want or type(got) is not type(want)):
+                    res.violate("C02/determined-key-reported-none" if got is None else "C02/wrong-fact-value", f"key #{k} reported {got!r}, it is forced to {want!r} [{tag}]")
+                    return res
+        except Exception as e:
+            res.violate("C02/unexpected-exception", f"long program: {type(e).__name__}: {str(e)[:200]} [{tag}]")
+    return res
+
+
 def run_big(sc) -> RunResult:
     cspuz = core.import_cspuz()
     res = RunResult()
@@ -282,6 +414,8 @@ def run_big(sc) -> RunResult:
 
 
 def run(sc) -> RunResult:
+    if sc.get("long"):
+        return run_long(sc)
     if sc.get("big"):
         return run_big(sc)
     cspuz = core.import_cspuz()
@@ -425,6 +559,14 @@ def _demotion_probes(res, keys):
 
 
 def shrink_candidates(sc):
+    if sc.get("long"):
+        n = len(sc["decls"])
+        if n > 1:
+            for m in (n // 2, n - 1):
+                yield dict(sc, decls=sc["decls"][:m], forced={k: v for k, v in sc["forced"].items() if int(k) < m}, keys=[i for i in sc["keys"] if i < m])
+        for k2 in core.ddmin_list(sc["keys"]):
+            yield dict(sc, keys=k2)
+        return
     if sc.get("big"):
         for c2 in core.ddmin_list(sc["cs"]):
             yield dict(sc, cs=c2)
